@@ -37,7 +37,7 @@ def _observe_base(self) -> list[int]:
         ts = ab._task_states.get(task) if task is not None else None
         cur = self.sid(ts.cancel_scope) if ts is not None else 0
         out += [self.task_state(p), task.cancelling() if task is not None else 0,
-                1 if (task is not None and getattr(task, "_must_cancel", False)) else 0, cur, self.handle_status(p)]
+                1 if (task is not None and getattr(task, "_must_cancel", False)) else 0, cur, self.handle_status(p)] + self.handle_outcome(p)
     out.append(len(self.scopes))
     for sc in self.scopes:
         flags = (int(sc._active) + 2 * int(sc._cancel_called) + 4 * int(sc._cancelled_caught)
@@ -48,7 +48,8 @@ def _observe_base(self) -> list[int]:
                 self.sid(sc._parent_scope), len(sc._tasks), len(sc._child_scopes)]
     out.append(len(self.groups))
     for tg in self.groups:
-        out += [len(tg._tasks), len(getattr(tg, "_exceptions", [])), int(tg._on_completed_fut is not None)]
+        out += [len(tg._tasks), len(getattr(tg, "_exceptions", [])), int(tg._on_completed_fut is not None),
+                sum(self.exn_sum(e) for e in getattr(tg, "_exceptions", []))]
     out += [0, 0]        # no ready queue / timer view on a real loop
     return out
 
